@@ -253,6 +253,7 @@ class Unit:
         self.notdecided = []
         self.sources = {}
         self.vac_ids = []
+        self.lemmas = []
 
     def emit(self, text, origin):
         if text:
@@ -546,7 +547,19 @@ class Unit:
             ln = lines[i]
             st = ln.strip()
             if not st.startswith("//@"):
-                self.emit(ln + "\n", {"kind": "tpl", "tpl": f"{rel}:{i + 1}"})
+                org = {"kind": "tpl", "tpl": f"{rel}:{i + 1}"}
+                m = re.search(r"\bproof fn\s+(\w+)", ln)
+                if m and "broadcast use" not in ln:
+                    tags = []
+                    for back in range(0, 4):
+                        if i - back >= 0:
+                            tags += re.findall(r"\[(C\d+)\]", lines[i - back])
+                            if back > 0 and not lines[i - back].strip().startswith("//"):
+                                break
+                    org["lemma"] = m.group(1)
+                    org["tags"] = sorted(set(tags))
+                    self.lemmas.append({"name": m.group(1), "tags": sorted(set(tags)), "tpl": f"{rel}:{i + 1}"})
+                self.emit(ln + "\n", org)
                 i += 1
                 continue
             d = st[3:]
@@ -622,7 +635,7 @@ class Unit:
         return text, {"unit": self.name, "line_starts": starts, "origins": origins, "rewrites": self.rewrites,
                       "functions": self.functions, "items": self.items, "trusted": self.trusted,
                       "bounded": self.bounded, "notdecided": self.notdecided, "sources": self.sources,
-                      "vac_ids": self.vac_ids}
+                      "vac_ids": self.vac_ids, "lemmas": self.lemmas}
 
 
 def origin_of(meta, line):
